@@ -205,9 +205,9 @@ theorem foldSlots_tags (S : Suite) (allow : String → List String) (f : Nat) (a
         (if (prods S allow f asg s).isEmpty then [] else [(s.vm, s.kind)]) := ht0
     rw [ht0']
     by_cases hp : (prods S allow f asg s).isEmpty = true
-    · simp [List.filter_cons, hp]
+    · simp [hp]
     · simp only [Bool.not_eq_true] at hp
-      simp [List.filter_cons, hp]
+      simp [hp]
 
 /-- **none missing, none duplicated**: the parents of a resolved node are, slot by slot and in order, exactly one
 per declared slot that has a producer -/
